@@ -360,12 +360,55 @@ CONS = 'self.fem_data.constraints'
 KNOWN_KEYS = ('boundary', 'spring', 'cload', 'fixtemp', 'cflux', 'pure_cflux')
 
 
-def _section_of(key, stmts):
+def _inline_helpers(stmts, cls, depth=2):
+    """`self._helper(a, b, k=c)` as a statement, _helper a method of the class whose body has
+    no return value -> its body with the parameters replaced by the arguments"""
+    if depth == 0 or cls is None:
+        return stmts
+    methods = {n.name: n for n in cls.body if isinstance(n, ast.FunctionDef)}
+    out = []
+    for s in stmts:
+        c = s.value if isinstance(s, ast.Expr) and isinstance(s.value, ast.Call) else None
+        if c is not None and isinstance(c.func, ast.Attribute) and _u(c.func.value) == 'self' \
+                and c.func.attr in methods and c.func.attr not in ('write_data', 'write_string',
+                                                                  '_generate_constraints'):
+            fn = methods[c.func.attr]
+            a = fn.args
+            if a.vararg or a.kwarg or any(isinstance(x, ast.Return) and x.value is not None
+                                          for x in ast.walk(fn)):
+                out.append(s)
+                continue
+            params = [x.arg for x in a.args][1:]
+            env = {}
+            defaults = dict(zip(params[len(params) - len(a.defaults):], a.defaults))
+            defaults.update({k.arg: d for k, d in zip(a.kwonlyargs, a.kw_defaults) if d is not None})
+            for name, val in zip(params, c.args):
+                env[name] = val
+            for kw in c.keywords:
+                if kw.arg is None:
+                    raise TranslateError('write_cnt: **kwargs in a helper call')
+                env[kw.arg] = kw.value
+            for name in params + [k.arg for k in a.kwonlyargs]:
+                if name not in env:
+                    if name not in defaults:
+                        raise TranslateError(f'write_cnt: helper {fn.name}: argument {name} missing')
+                    env[name] = defaults[name]
+            if set(env) & set(_names_stored(fn.body)):
+                raise TranslateError(f'write_cnt: helper {fn.name} assigns to a parameter')
+            body = [_subst(b, env) for b in _strip_prints(c1._body_wo_doc(fn))]
+            out += _inline_helpers(body, cls, depth - 1)
+        else:
+            out.append(s)
+    return out
+
+
+def _section_of(key, stmts, cls=None):
     """one `if '<key>' in self.fem_data.constraints:` body -> (header, source, fmt)
     source in {'gen_both', 'gen_first', 'spring', 'values'}; fmt = list of formats or None"""
     E = f'write_cnt section {key!r}: '
     A = f"{CONS}['{key}']"
     stmts = inline_locals(_strip_prints(stmts))
+    stmts = inline_locals(_strip_prints(_inline_helpers(stmts, cls)))
     gen = None
     if len(stmts) == 2 and isinstance(stmts[0], ast.Assign) and len(stmts[0].targets) == 1 \
             and isinstance(stmts[0].targets[0], ast.Tuple) \
@@ -388,7 +431,10 @@ def _section_of(key, stmts):
             raise TranslateError(E + 'str_format is not a constant')
         if isinstance(fmt, str):
             fmt = [fmt]
-        fmt = list(fmt)
+        if fmt is not None:
+            if not isinstance(fmt, (list, tuple)) or not all(isinstance(x, str) for x in fmt):
+                raise TranslateError(E + 'str_format is not a list of format strings')
+            fmt = list(fmt)
     if len(call.args) < 3 or _u(call.args[0]) != 'self.write_cnt_file':
         raise TranslateError(E + 'write_data does not write to self.write_cnt_file')
     header = _fold_str(call.args[1])
@@ -418,7 +464,8 @@ def tr_cnt_sections(repo, consumed):
     """the constraint sections write_cnt emits, in order:
     [(key, header line, source, formats or None)]"""
     txt, tree = c1._src(repo, WRITE_FISTR)
-    fn = c1._find_func(c1._find_class(tree, 'FistrWriter'), 'write_cnt')
+    cls = c1._find_class(tree, 'FistrWriter')
+    fn = c1._find_func(cls, 'write_cnt')
     consumed['write_fistr.py:write_cnt'] = c1._region(txt, fn)
     body = _unroll(c1._body_wo_doc(fn), _const_env(tree))
     sections = []
@@ -430,7 +477,7 @@ def tr_cnt_sections(repo, consumed):
             if s.orelse:
                 raise TranslateError('write_cnt: else branch on a constraint section')
             key = s.test.left.value
-            sections.append((key,) + _section_of(key, s.body))
+            sections.append((key,) + _section_of(key, s.body, cls))
         elif mentions:
             raise TranslateError(f'write_cnt: statement at line {getattr(s, "lineno", "?")} uses the '
                                  'constraints outside an `if <key> in constraints` section')
@@ -552,7 +599,11 @@ def translate(repo, baseline=None):
     for name, thunk in _components(repo, consumed):
         try:
             t.update(thunk())
-        except TranslateError as e:
+        except (SyntaxError, OSError):
+            raise
+        except Exception as e:      # TranslateError, or a recogniser tripping over an unforeseen shape
+            if not isinstance(e, TranslateError):
+                e = TranslateError(f'{type(e).__name__}: {e}')
             if baseline is None:
                 baseline = load_baseline()
             keys = baseline['regions'][name]
